@@ -150,6 +150,14 @@ def specFirst (log : List Version) (asof : Option Int) : TS :=
     | none => logRows log
   (dates pubs).map fun d => (d, firstVal (group d pubs))
 
+/-- the clause "what=0 returns the first value published per date" as it is written: per date published by `T`, the value of
+    its first publication in merge order (NaN if that publication was NaN) -/
+def specFirstLiteral (log : List Version) (asof : Option Int) : TS :=
+  let pubs := match asof with
+    | some T => (logRows log).filter (fun r => decide (r.stamp ≤ T))
+    | none => logRows log
+  (dates pubs).map fun d => (d, (group d pubs).head?.bind (·.val))
+
 /-- the store after merging the versions of `log` one by one, starting from `None` -/
 def history (log : List Version) : Option Store :=
   log.foldl (fun st v => some (biMerge st (Bi v.ts v.stamp))) none
